@@ -151,6 +151,9 @@ def run(ctx):
         if rc: ctx.fail('harness', 'build of seqdiff/bparena.c', se[-600:]); continue
         if am: C15seq.diff_run(ctx, 'BpArena.prune / alloc / free vs urcu_bp_prune_registry / arena_alloc / cleanup_thread (INIT_READER_COUNT %s)' % tag, exe, am,
                                [[exe, '700', str(ctx.seed * 100 + 50 + i), str(i % 3)] for i in range(nseq)], 'harness/seqdiff/bparena.c')
+    import lfhtx_common as X
+    ximpl = X.build(ctx)
+    if ximpl: X.run_wq(ctx, ximpl, build_model_driver(ctx, 'wqpause', 'ExtractWqPause.v', 'wqpause_driver.ml'))
     probes = [('fork_callrcu', 'seqdiff/fork_callrcu.c', ['3' if ctx.quick() else '20', '0']), ('fork_callrcu', 'seqdiff/fork_callrcu.c', ['3' if ctx.quick() else '20', '1']),
               ('fork_bp', 'seqdiff/fork_bp.c', ['4' if ctx.quick() else '24']),
               ('fork_lfht', 'seqdiff/fork_lfht.c', ['3' if ctx.quick() else '15', '0']), ('fork_lfht', 'seqdiff/fork_lfht.c', ['3' if ctx.quick() else '15', '1'])]
